@@ -1,53 +1,72 @@
 (* Correspondence checker for C13: evaluated by vm_compute on generated case
-   files.  Nothing here is a theorem. *)
+   files.  Nothing here is a theorem.
+   A case is a base function and a STACK of wraps steps (stacked decorators):
+   g1 = wraps(f, ..)(w1), g2 = wraps(g1, ..)(w2), ...; every level is observed. *)
 From Boltons Require Import Lib.Prelude Spec.C13_Spec Model.C13_Model.
 
-(* what was observed of g = wraps(f, injected, expected)(wrapper) *)
+(* what was observed of one level g = wraps(prev, injected, expected, **options)(wrapper) *)
 Record built_obs := mkBO {
   bo_sig : signature;            (* inspect.signature(g, follow_wrapped=False) *)
   bo_name : nat; bo_doc : option nat; bo_module : option nat;
-  bo_wrapped : bool;             (* g.__wrapped__ is f *)
-  bo_async : bool;               (* inspect.iscoroutinefunction(g) *)
-  bo_calls : list (option call * res binding)
-     (* per call shape: what the wrapper received (None: not reached) and the
-        outcome: TypeError, or what f saw when the wrapper forwards, else [] *)
+  bo_dict : pydict nat;          (* g.__dict__: attribute token -> object token; the value of
+                                    __wrapped__ is the identity token of the function it is *)
+  bo_async : bool                (* inspect.iscoroutinefunction(g) *)
 }.
 
 Record c13_case := mkCase {
   (* input *)
-  k_f : pyfunc;                                   (* the function the harness compiled *)
-  k_injected : list name;
-  k_expected : list (name * option value);
-  k_forward : bool;                               (* the harness's wrapper calls f *)
+  k_f : pyfunc;                                   (* the base function the harness compiled *)
+  k_steps : list step;                            (* innermost first *)
+  k_forward : bool;                               (* every harness wrapper calls the function below it *)
   k_calls : list call;
   (* observations on the real code *)
   k_fsig : signature;                             (* inspect.signature(f) *)
   k_fasync : bool;                                (* inspect.iscoroutinefunction(f) *)
   k_direct : list (res binding);                  (* f called directly on each call shape *)
-  k_build : res built_obs
+  k_levels : list built_obs;                      (* the levels that were built, innermost first *)
+  k_fail : option exn;                            (* the error that stopped the stack, if any *)
+  k_top_calls : list (option call * res binding)
+     (* the outermost function on each call shape (empty if the stack stopped): what the
+        outermost wrapper received (None: not reached) and the outcome: TypeError, or what
+        f saw when the wrappers forward, else [] *)
 }.
 
 Definition rb_eqb : res binding -> res binding -> bool := res_eqb binding_eqb.
 Definition call_obs_eqb (x y : option call * res binding) : bool :=
   option_eqb call_eqb (fst x) (fst y) && rb_eqb (snd x) (snd y).
 
+(* two dicts hold the same attributes (order is not compared) *)
+Definition dict_equiv (a b : pydict nat) : bool :=
+  Nat.eqb (length a) (length b) &&
+  forallb (fun kv => option_eqb Nat.eqb (d_get a (fst kv)) (d_get b (fst kv))) (a ++ b).
+
+Fixpoint forall2b {A B} (f : A -> B -> bool) (l1 : list A) (l2 : list B) : bool :=
+  match l1, l2 with
+  | [], [] => true
+  | x :: r1, y :: r2 => f x y && forall2b f r1 r2
+  | _, _ => false
+  end.
+
 (* ---- agree: the model predicts every observation ----------------------------- *)
+Definition level_agree (g : built) (o : built_obs) : bool :=
+  res_eqb sig_eqb (sig_of (b_func g)) (Ok (bo_sig o)) &&
+  Nat.eqb (f_name (b_func g)) (bo_name o) &&
+  option_eqb Nat.eqb (f_doc (b_func g)) (bo_doc o) &&
+  option_eqb Nat.eqb (f_module (b_func g)) (bo_module o) &&
+  dict_equiv (f_dict (b_func g)) (bo_dict o) &&
+  Bool.eqb (f_async (b_func g)) (bo_async o).
+
 Definition agree (k : c13_case) : bool :=
   let f := k_f k in
   res_eqb sig_eqb (sig_of f) (Ok (k_fsig k)) &&
   Bool.eqb (f_async f) (k_fasync k) &&
   list_eqb rb_eqb (map (call_func f) (k_calls k)) (k_direct k) &&
-  match update_wrapper f (k_injected k) (k_expected k), k_build k with
-  | Raise e, Raise e' => exn_eqb e e'
-  | Ok g, Ok o =>
-      res_eqb sig_eqb (sig_of (b_func g)) (Ok (bo_sig o)) &&
-      Nat.eqb (f_name (b_func g)) (bo_name o) &&
-      option_eqb Nat.eqb (f_doc (b_func g)) (bo_doc o) &&
-      option_eqb Nat.eqb (f_module (b_func g)) (bo_module o) &&
-      Bool.eqb (b_wrapped_is_func g) (bo_wrapped o) &&
-      Bool.eqb (f_async (b_func g)) (bo_async o) &&
-      list_eqb call_obs_eqb (map (call_built f g (k_forward k)) (k_calls k)) (bo_calls o)
-  | _, _ => false
+  let '(gs, e) := run_steps f (k_steps k) in
+  forall2b level_agree gs (k_levels k) &&
+  option_eqb exn_eqb e (k_fail k) &&
+  match e with
+  | None => list_eqb call_obs_eqb (map (call_top f (rev gs) (k_forward k)) (k_calls k)) (k_top_calls k)
+  | Some _ => match k_top_calls k with [] => true | _ => false end
   end.
 
 (* ---- holds: the implementation's observations satisfy the Spec ------------------ *)
@@ -55,8 +74,9 @@ Definition is_ok {A} (r : res A) : bool := match r with Ok _ => true | Raise _ =
 Definition is_type_error {A} (r : res A) : bool :=
   match r with Ok _ => true | Raise TypeError => true | Raise _ => false end.
 
-Definition plain (k : c13_case) : bool :=
-  match k_injected k, k_expected k with [], [] => true | _, _ => false end.
+Definition plain_step (s : step) : bool :=
+  match s_injected s, s_expected s with [], [] => true | _, _ => false end.
+Definition plain (k : c13_case) : bool := forallb plain_step (k_steps k).
 
 Fixpoint calls_ok (k : c13_case) (gsig : signature) (cs : list call)
          (direct : list (res binding)) (obs : list (option call * res binding)) : bool :=
@@ -69,11 +89,43 @@ Fixpoint calls_ok (k : c13_case) (gsig : signature) (cs : list call)
       Bool.eqb (is_ok out) (accepts (sg_params gsig) c) &&
       (* the wrapper is reached exactly on accepted calls *)
       Bool.eqb (match saw with Some _ => true | None => false end) (is_ok out) &&
-      (* plain wraps, forwarding wrapper: same outcome as the original, which
-         sees the same bound arguments, defaults included *)
+      (* plain wraps at every level, forwarding wrappers: same outcome as the original,
+         which sees the same bound arguments, defaults included *)
       (if plain k && k_forward k then rb_eqb out d else true) &&
       calls_ok k gsig cs' direct' obs'
   | _, _, _ => false
+  end.
+
+(* level by level: the own signature is the reference transformation of the
+   signature one level below; __name__/__doc__/__module__/async are the wrapped
+   function's (hence the base function's); __wrapped__ is the function one level
+   below (absent with hide_wrapped).  Returns the outermost signature. *)
+Fixpoint levels_ok (f : pyfunc) (fasync : bool) (s : signature) (below : nat)
+         (steps : list step) (levels : list built_obs) (fail : option exn) : option signature :=
+  match steps with
+  | [] => match levels, fail with [], None => Some s | _, _ => None end
+  | st :: steps' =>
+      match spec_wraps s (s_injected st) (s_expected st) with
+      | Raise _ =>
+          match levels, fail with
+          | [], Some ValueError | [], Some (OtherExn 1) => Some s
+          | _, _ => None
+          end
+      | Ok s' =>
+          match levels with
+          | [] => None
+          | o :: levels' =>
+              if sig_eqb s' (bo_sig o) &&
+                 Nat.eqb (f_name f) (bo_name o) &&
+                 option_eqb Nat.eqb (f_doc f) (bo_doc o) &&
+                 option_eqb Nat.eqb (f_module f) (bo_module o) &&
+                 Bool.eqb fasync (bo_async o) &&
+                 option_eqb Nat.eqb (d_get (bo_dict o) K_WRAPPED)
+                            (if o_hide_wrapped (s_options st) then None else Some below)
+              then levels_ok f fasync s' (s_id st) steps' levels' fail
+              else None
+          end
+      end
   end.
 
 Definition holds (k : c13_case) : bool :=
@@ -81,17 +133,13 @@ Definition holds (k : c13_case) : bool :=
   (* the reference binding is Python's: direct calls of f *)
   wf_params (sg_params (k_fsig k)) &&
   list_eqb rb_eqb (map (bind (sg_params (k_fsig k))) (k_calls k)) (k_direct k) &&
-  match spec_wraps (k_fsig k) (k_injected k) (k_expected k), k_build k with
-  | Raise _, Raise e => match e with ValueError | OtherExn 1 => true | _ => false end
-  | Ok s, Ok o =>
-      sig_eqb s (bo_sig o) &&
-      Nat.eqb (f_name f) (bo_name o) &&
-      option_eqb Nat.eqb (f_doc f) (bo_doc o) &&
-      option_eqb Nat.eqb (f_module f) (bo_module o) &&
-      bo_wrapped o &&
-      Bool.eqb (k_fasync k) (bo_async o) &&
-      calls_ok k (bo_sig o) (k_calls k) (k_direct k) (bo_calls o)
-  | _, _ => false
+  match levels_ok f (k_fasync k) (k_fsig k) (f_id f) (k_steps k) (k_levels k) (k_fail k) with
+  | None => false
+  | Some top =>
+      match k_fail k with
+      | Some _ => match k_top_calls k with [] => true | _ => false end
+      | None => calls_ok k top (k_calls k) (k_direct k) (k_top_calls k)
+      end
   end.
 
 Definition c13_verdict (k : c13_case) : verdict := (agree k, holds k, false).
@@ -99,10 +147,8 @@ Definition c13_verdict (k : c13_case) : verdict := (agree k, holds k, false).
 (* what the model computes, for replay files *)
 Definition c13_explain (k : c13_case) :=
   let f := k_f k in
+  let '(gs, e) := run_steps f (k_steps k) in
   (sig_of f, map (call_func f) (k_calls k),
-   spec_wraps (k_fsig k) (k_injected k) (k_expected k),
-   match update_wrapper f (k_injected k) (k_expected k) with
-   | Raise e => Raise e
-   | Ok g => Ok (sig_of (b_func g), f_doc (b_func g), b_inv g,
-                 map (call_built f g (k_forward k)) (k_calls k))
-   end).
+   map (fun g => (sig_of (b_func g), f_doc (b_func g), f_dict (b_func g), b_inv g)) gs, e,
+   map (call_top f (rev gs) (k_forward k)) (k_calls k),
+   levels_ok f (k_fasync k) (k_fsig k) (f_id f) (k_steps k) (k_levels k) (k_fail k)).
